@@ -63,8 +63,67 @@ def claimScore (svc : Service) (qs : List Str) : Option Nat :=
   | some sc, none => some sc
   | none, _ => none
 
-/-- the services that best match the URL (all those with the maximal score; RouterJSR311: the
-    first of its sorted dispatcher candidates) -/
+/-! ### RouterJSR311: which WebService "best matches" the URL
+
+An independent statement of the choice `detectDispatcher` (jsr311.go:214) documents — no sorting,
+no call into the router model beyond the regex layer (`Jsr.compile` = `newPathExpression`,
+`Jsr.matchExpr` = `Matcher.FindStringSubmatch`).  `Jsr.detectDispatcher_eq_spec`
+(Lemmas/JsrBest.lean) proves that the model's sort-and-take-first computes exactly this. -/
+
+/-- the sort key of a root whose compiled expression matches the URL, most significant first
+    (jsr311.go:307 `sortableDispatcherCandidates.Less`):
+    `matchesCount`    = `len(matches)`: the capture groups of the root expression — one per variable,
+                        plus the final group `(/.*)?` — plus the whole match,
+    `literalCount`    = the literal characters of the root template,
+    `nonDefaultCount` = what `detectDispatcher` puts there: `pathExpr.VarCount`, the number of variables -/
+structure JsrKey where
+  matchesCount : Nat
+  literalCount : Nat
+  nonDefaultCount : Nat
+  deriving DecidableEq, Repr
+
+/-- the lexicographic order on keys: `a` ranks strictly below `b` -/
+def JsrKey.lt (a b : JsrKey) : Bool :=
+  decide (a.matchesCount < b.matchesCount) ||
+    (a.matchesCount == b.matchesCount &&
+      (decide (a.literalCount < b.literalCount) ||
+        (a.literalCount == b.literalCount && decide (a.nonDefaultCount < b.nonDefaultCount))))
+
+/-- a WebService whose root expression matches the URL: the service, the final match (the text of
+    the last group, which the route stage receives) and its key; `none` = the root does not
+    compile or does not match -/
+def jsrClaim (path : Str) (svc : Service) : Option (Service × Str × JsrKey) :=
+  match Jsr.compile svc.rootPath with
+  | none => none
+  | some ex =>
+    match Jsr.matchExpr E ex.toks path with
+    | some (caps, final) => some (svc, final, ⟨caps.length + 2, ex.literalCount, ex.varCount⟩)
+    | none => none
+
+/-- **RouterJSR311's choice of the WebService**: among the services whose compiled root expression
+    matches the path, the one whose key (`JsrKey`: matchesCount, then literalCount, then
+    nonDefaultCount) is maximal — no other matching service has a strictly greater key — and,
+    among services with EQUAL maximal keys, the one that was **registered FIRST**.
+
+    (Why first: `sort.Sort(sort.Reverse(c))` on n ≤ 12 elements is insertion sort with
+    `Less(i, j) = c.Less(j, i)`; an element walks left only past neighbours with a strictly smaller
+    key, never past an equal one, so the sort is stable and the earliest registered of the maximal
+    services ends up at index 0.  `JsrBestExample.tie_first` (Lemmas/JsrBest.lean) is the `decide`d
+    two-service example in both registration orders, `Sort.head?_insertionSort` the general fact
+    and `Jsr.detectDispatcher_eq_spec` the proof for all inputs.)
+
+    Result: outer `none` = some root does not compile (`newPathExpression` failed), `some none` = no
+    root matches ("not found", 404), `some (some (svc, final))` = the chosen service and the final
+    match handed to `selectRoutes`. -/
+def jsrBestService (svcs : List Service) (path : Str) : Option (Option (Service × Str)) :=
+  if svcs.all (fun s => (Jsr.compile s.rootPath).isSome) then
+    let claims := svcs.filterMap (jsrClaim E path)
+    some ((claims.find? (fun c => claims.all (fun d => !JsrKey.lt c.2.2 d.2.2))).map
+      (fun c => (c.1, c.2.1)))
+  else none
+
+/-- the services that best match the URL (CurlyRouter: all those with the maximal `claimScore`;
+    RouterJSR311: the one `jsrBestService` names) -/
 def bestServices (cfg : Config) (req : Req) : List Service :=
   match cfg.router with
   | .curly =>
@@ -73,7 +132,7 @@ def bestServices (cfg : Config) (req : Req) : List Service :=
     let best := scored.foldl (fun m p => max m p.2) 0
     (scored.filter (fun p => p.2 == best)).map (·.1)
   | .jsr =>
-    match Jsr.detectDispatcher E cfg.services req.path with
+    match jsrBestService E cfg.services req.path with
     | some (some (svc, _)) => [svc]
     | _ => []
 
